@@ -10,6 +10,8 @@ Events == ndJsonDeserialize(IOEnv.TRACE_FILE)
 VARIABLE i
 
 \* ---- named tolerances, units of 10^-6
+PrecTol == 64     \* units of machine epsilon of the dtype the factors came out in (relative to max(1, |W|)): the exposed
+                  \* dense weights / vec_W_ against dense(factors) recomputed in that dtype -- bit-identical on tensorly today
 EqTol   == 1      \* two roundings of the same float64 quantity (weight_tensor_ vs dense(factors), vec_W_)
 PlsTol  == 2      \* 1e-6 between quantities of two different fits + their roundings
 UnitTol(rows) == 4 * rows + 2     \* on SUM a^2 = 1: per entry |a| <= 1 off by 1/2 unit plus truncation < 3
@@ -55,6 +57,7 @@ RefitV(c, e) ==
          LET Os == Size(OutDims(r.x, r.weight)) IN
          IF \E m \in 1..Len(P.data) : AbsI(r.pred.data[m] - P.data[m]) > PredTol(r.x, ((m - 1) \div Os) + 1) THEN "RefitPredict"
          ELSE IF ~Close(r.dense, r.weight, EqTol) THEN "RefitWeightIsDense"
+         ELSE IF ~IsFin(r.prec.wd) \/ r.prec.wd > PrecTol \/ ~IsFin(r.prec.vd) \/ r.prec.vd > PrecTol THEN "RefitWeightPrecision"
          ELSE IF ~(r.vec.shape = <<Size(r.weight.shape)>> /\ \A n \in 1..Len(r.vec.data) : AbsI(r.vec.data[n] - r.weight.data[n]) <= EqTol) THEN "RefitVecW"
          ELSE "ok")
 
@@ -78,6 +81,8 @@ RegV(e) ==
          ELSE IF FormsV(c, e) # "ok" THEN FormsV(c, e)
          ELSE IF RefitV(c, e) # "ok" THEN RefitV(c, e)
          ELSE IF ~Close(e.dense, e.weight, EqTol) THEN "WeightIsDense"
+         ELSE IF ~IsFin(e.prec.wd) \/ e.prec.wd > PrecTol THEN "WeightIsDensePrecision"
+         ELSE IF ~IsFin(e.prec.vd) \/ e.prec.vd > PrecTol THEN "VecWPrecision"
          ELSE IF ~(e.vec.shape = <<Size(e.weight.shape)>> /\ \A n \in 1..Len(e.vec.data) : AbsI(e.vec.data[n] - e.weight.data[n]) <= EqTol) THEN "VecW"
          \* the factors themselves are logged (and contracted here) in the base units only: how a unit is split between
          \* the factors is not determined
@@ -127,6 +132,12 @@ PlsExtraV(c, e) ==
                                           /\ AllFin(x.forms[k].transform) /\ AllFin(x.forms[k].pred)) THEN "Shapes"
     ELSE IF \E k \in DOMAIN x.forms : ~Close(x.forms[k].transform, e.base.scores, PlsTol) THEN "TransformDataForm"
     ELSE IF \E k \in DOMAIN x.forms : ~Close(x.forms[k].pred, e.base.pred, PlsTol) THEN "PredictDataForm"
+    \* a second, fresh estimator fitted on the very same data learns the very same model (default random_state)
+    ELSE IF x.again.raised THEN "FitTwiceSame"
+    ELSE IF ~FitShapesOK(c, x.again, e.mtest) THEN "Shapes"
+    ELSE IF ~(AllFin(x.again.scores) /\ AllFin(x.again.transform) /\ AllFin(x.again.yload) /\ AllFin(x.again.pred)
+              /\ \A m \in 1..Len(c.xs) : AllFin(x.again.loads[m])) THEN "Finite"
+    ELSE IF ~(SameLoads(c, x.again, e.base) /\ Close(x.again.scores, e.base.scores, PlsTol) /\ Close(x.again.pred, e.base.pred, PlsTol)) THEN "FitTwiceSame"
     \* a fit that the estimator rejects (first modes of X and Y differ / Y of order 3: documented ValueError) must leave the
     \* fitted model untouched: transform and predict still agree with the exposed attributes
     ELSE IF ~(x.reject.raised /\ x.reject.exc = "ValueError") THEN "BadFitNotRejected"
